@@ -10,7 +10,6 @@ import (
 
 	abci "github.com/cometbft/cometbft/abci/types"
 
-	ibc "github.com/cosmos/ibc-go/v11/modules/core"
 	clienttypes "github.com/cosmos/ibc-go/v11/modules/core/02-client/types"
 	channeltypes "github.com/cosmos/ibc-go/v11/modules/core/04-channel/types"
 	channeltypesv2 "github.com/cosmos/ibc-go/v11/modules/core/04-channel/v2/types"
@@ -19,6 +18,8 @@ import (
 	"github.com/cosmos/ibc-go/v11/modules/core/exported"
 	ibctm "github.com/cosmos/ibc-go/v11/modules/light-clients/07-tendermint"
 	ibcmock "github.com/cosmos/ibc-go/v11/testing/mock"
+
+	"verif/harness/lib"
 )
 
 // result classes: ok | noop | err | panic
@@ -351,39 +352,24 @@ func (w *World) freeze(c string) (string, string) {
 	return w.sendTx(c, msg)
 }
 
-// exportImport exports the IBC module's genesis, deletes every key of its store and initialises the module from
-// the export, on the same chain (everything else untouched so that relaying continues), then commits a block.
+// exportImport exports the genesis of the IBC core module and of every IBC application module, deletes every key
+// of their stores and initialises the modules from the export, on the same chain (everything else untouched so
+// that relaying continues), then commits a block.
+var genesisModules = []string{"ibc", "transfer", "ratelimit", "packetfowardmiddleware", "interchainaccounts", "gmp"}
+
 func (w *World) exportImport(c string) (res string, errStr string) {
 	chain := w.ch[c]
-	defer func() {
-		if r := recover(); r != nil {
-			res, errStr = "panic", fmt.Sprint(r)
-			chain.NextBlock()
-		}
-	}()
-	base := chain.GetContext()
-	ctx, write := base.CacheContext() // a panic half-way must not leave a half-initialised store behind
-	k := chain.App.GetIBCKeeper()
-	gs := ibc.ExportGenesis(ctx, *k)
-	bz1 := chain.App.AppCodec().MustMarshalJSON(gs)
-	store := ctx.KVStore(chain.GetSimApp().GetKey(exported.StoreKey))
-	var keys [][]byte
-	it := store.Iterator(nil, nil)
-	for ; it.Valid(); it.Next() {
-		keys = append(keys, append([]byte{}, it.Key()...))
-	}
-	it.Close()
-	for _, key := range keys {
-		store.Delete(key)
-	}
-	ibc.InitGenesis(ctx, *k, gs)
-	bz2 := chain.App.AppCodec().MustMarshalJSON(ibc.ExportGenesis(ctx, *k))
-	if string(bz1) == string(bz2) {
-		w.reexport[c] = "same"
-	} else {
-		w.reexport[c] = "differs"
-	}
-	write()
+	app := chain.GetSimApp()
+	same, err := lib.ExportImportModules(chain.GetContext(), app, app.ModuleManager, genesisModules)
 	chain.NextBlock()
+	if err != nil {
+		return "panic", err.Error()
+	}
+	w.reexport[c] = "same"
+	for _, m := range genesisModules {
+		if same[m] != "same" {
+			w.reexport[c] = "differs:" + m
+		}
+	}
 	return "ok", ""
 }
